@@ -1,4 +1,5 @@
 import AkVerif.Model.Common
+import AkVerif.Gen.C08
 /-!
 Model of `CHText` / `CHText.Chunk` of `/repo/ak/color.py` (C08; shared with C09, C10, C12).
 
@@ -13,6 +14,9 @@ Model of `CHText` / `CHText.Chunk` of `/repo/ak/color.py` (C08; shared with C09,
   `locate` — `_get_chunk_pos` (returns the chunk, the position in it and the following chunks
   instead of an index); `getIndex`, `getSlice` (`takeChars` is the `while remain_len > 0` loop),
   `fixedLen`, `format` (returns the two pads; the body is `str(self)`), `eqText`/`eqStr`/`eqChunk`.
+* The characters `__format__` and `fixed_len` are written with (`('>', '<', '^')`, the default align
+  and fill, the type character `s`, the pad `" "`) are read from the source by the translator
+  (`Gen.C08`), so a change there re-opens `C08.format_cells` / `C08.fixedLen_cells`.
 * `pySlice`/`pyIndex` — Python's own `seq[i:j]` / `seq[i]` (used by `Chunk.__getitem__`, which calls
   `str` slicing directly, and as the *specification* the `CHText` operations are proved against).
 * `Expr`/`eval` — operation trees with Python's operator dispatch (`__add__`/`__radd__`/`__iadd__`/
@@ -178,7 +182,7 @@ def Text.getSlice (t : Text) (i j : Option Int) : Text :=
     | some (c, p, rest) => fromChunks (takeChars (⟨c.col, c.text.drop p⟩ :: rest) remain.toNat)
 
 /-- `" " * n` -/
-def spaces (n : Nat) : List Char := List.replicate n ' '
+def spaces (n : Nat) : List Char := List.replicate n Gen.C08.padChar
 
 /-- `CHText.fixed_len` -/
 def Text.fixedLen (t : Text) (n : Int) : Text :=
@@ -194,13 +198,14 @@ inductive Fail where
   | unmodelled
   deriving DecidableEq, Repr
 
-def isAlign (c : Char) : Bool := c = '>' || c = '<' || c = '^'
+/-- `ch in ('>', '<', '^')` (the tuple is read from the source: `Gen.C08.alignChars`) -/
+def isAlign (c : Char) : Bool := Gen.C08.alignChars.contains c
 
 def isAsciiDigit (c : Char) : Bool := '0' ≤ c && c ≤ '9'
 
 def digitsVal (acc : Nat) : List Char → Nat
   | [] => acc
-  | c :: cs => digitsVal (acc * 10 + (c.toNat - '0'.toNat)) cs
+  | c :: cs => digitsVal (acc * 10 + (c.toNat - 48)) cs   -- ord('0') = 48
 
 /-- `int(width_part)`. Only what the model is sure about: ASCII digit strings are numbers; a string
 with an ASCII character that `int()` can never accept (not a digit, sign, underscore or white space)
@@ -226,7 +231,7 @@ def stripType (spec : List Char) : Except Fail (List Char) :=
   | some last =>
     if last.toNat ≥ 128 then .error .unmodelled      -- `str.isdigit` of a non-ASCII character
     else if isAsciiDigit last || isAlign last then .ok spec
-    else if last = 's' then .ok spec.dropLast
+    else if last = Gen.C08.typeChar then .ok spec.dropLast
     else .error (.py .valueError)
 
 /-- the rest of `__format__` up to the computation of the pads: `(left pad, right pad)` -/
@@ -234,7 +239,7 @@ def padsOf (scrlen : Nat) (spec : List Char) : Except Fail (List Char × List Ch
   let (alignPos, alignCh) : Int × Char :=
     match findAlign spec with
     | some (p, c) => ((p : Int), c)
-    | none => (-1, '<')
+    | none => (-1, Gen.C08.defaultAlign)
   let widthPart := spec.drop (alignPos + 1).toNat
   match parseWidth widthPart with
   | .error e => .error e
@@ -242,11 +247,11 @@ def padsOf (scrlen : Nat) (spec : List Char) : Except Fail (List Char × List Ch
     let fill : Char :=
       match spec, alignPos with
       | f :: _, 1 => f
-      | _, _ => ' '
+      | _, _ => Gen.C08.defaultFill
     let fw := width - scrlen      -- `max(width - self.scrlen, 0)`
     if fw = 0 then .ok ([], [])
-    else if alignCh = '<' then .ok ([], List.replicate fw fill)
-    else if alignCh = '>' then .ok (List.replicate fw fill, [])
+    else if alignCh = Gen.C08.leftAlign then .ok ([], List.replicate fw fill)
+    else if alignCh = Gen.C08.rightAlign then .ok (List.replicate fw fill, [])
     else .ok (List.replicate (fw / 2) fill, List.replicate (fw - fw / 2) fill)
 
 /-- `__format__` up to the computation of the pads; the result of the real method is
